@@ -41,6 +41,8 @@ def _inputs(name, rng):
         a.kind = b.kind = "categoric"
         h = pd.Series(list(rng.choice(["p", "q", "r"], size=len(g))))
         return dict(a=a, b=b, xa=g, xb=h)
+    if name.endswith("constant_offset"):
+        return dict(x=[2.5, -3.0, 0.0, 7, float(rng.normal())][int(rng.integers(0, 5))], size=int(rng.integers(0, 9)))
     if name.endswith("merge_step"):
         from formulae.contrasts import ExpandedFactor, Subterm
         pool = [ExpandedFactor(bool(rng.integers(0, 4) == 0), f) for f in rng.choice(["f", "g", "h", "k"], size=int(rng.integers(1, 5)), replace=False)]
